@@ -11,6 +11,9 @@
 (*     fields separated by single spaces; a field in double quotes may     *)
 (*     contain spaces; wrapping quotes are removed.                        *)
 (*                                                                         *)
+(*  GameSpy 1 uses the same backslash grammar for its variables            *)
+(*     (\hostname\h<fragment>\queryid\5.1\final\): kind "gs1", replayed      *)
+(*     through the raw-variables query (C04).                              *)
 (* Lines inside the grammar (InDomain) must be decoded exactly as the      *)
 (* functions below say; for every other line the property C05 states       *)
 (* nothing and only C01 applies (an error or a response, never a panic).   *)
@@ -83,15 +86,15 @@ Lines(A, n) == UNION {[1 .. k -> A] : k \in 0 .. n}
 \* "plr": two numeric fields already in place, then every continuation over the characters that matter for names
 \* (long enough for a quoted name with a space in it, an address, unbalanced or doubled quotes, doubled spaces)
 Prefixes == {<<"1", SP, "1", SP>>, <<"-", "1", SP, "1", "1", SP>>}
-Init == /\ kind \in {"kv", "pl", "plr"}
-        /\ line \in CASE kind = "kv" -> Lines(KvAlphabet, KvMax)
+Init == /\ kind \in {"kv", "gs1", "pl", "plr"}
+        /\ line \in CASE kind \in {"kv", "gs1"} -> Lines(KvAlphabet, KvMax)
                     [] kind = "pl" -> Lines(PlAlphabet, PlMax)
                     [] kind = "plr" -> {p \o r : p \in Prefixes, r \in Lines(RestAlphabet, RestMax)}
         /\ done = FALSE
 Step == /\ ~done /\ done' = TRUE /\ UNCHANGED <<kind, line>>
         /\ Emit => PrintT(<<"CASE", ToJson(
-              IF kind = "kv"
-              THEN [kind |-> "kv", line |-> line, indomain |-> KvInDomain(line),
+              IF kind \in {"kv", "gs1"}
+              THEN [kind |-> kind, line |-> line, indomain |-> KvInDomain(line),
                     expected |-> IF KvInDomain(line) THEN KvExpected(line) ELSE <<>>]
               ELSE [kind |-> "pl", sub |-> kind, line |-> line, indomain |-> PlInDomain(line),
                     expected |-> IF PlInDomain(line) THEN <<PlExpected(line)>> ELSE <<>>])>>)
@@ -100,7 +103,7 @@ Spec == Init /\ [][Step]_vars
 \* the oracle itself: tokens partition the line; the grammar's lines have 3 or 4 fields and balanced quotes
 RECURSIVE Join(_)
 Join(ts) == IF Len(ts) = 1 THEN ts[1] ELSE ts[1] \o <<SP>> \o Join(Tail(ts))
-TokensPartition == kind # "kv" => Join(Tokens(line)) = line
-DomainBalanced == (kind # "kv" /\ PlInDomain(line)) => Cardinality({i \in 1 .. Len(line) : line[i] = QT}) % 2 = 0
-KvPairsCover == (kind = "kv" /\ KvInDomain(line) /\ line # <<>>) => Len(KvExpected(line)) * 2 = Len(Split(line, BS)) - 1
+TokensPartition == kind \in {"pl", "plr"} => Join(Tokens(line)) = line
+DomainBalanced == (kind \in {"pl", "plr"} /\ PlInDomain(line)) => Cardinality({i \in 1 .. Len(line) : line[i] = QT}) % 2 = 0
+KvPairsCover == (kind \in {"kv", "gs1"} /\ KvInDomain(line) /\ line # <<>>) => Len(KvExpected(line)) * 2 = Len(Split(line, BS)) - 1
 =============================================================================
